@@ -306,32 +306,14 @@ def Flt.WF : Flt → Prop
   | .rat n d => 0 < d ∧ Nat.gcd n.natAbs d = 1
   | .big neg m e => (m = 0 ∧ neg = false ∧ e = 0) ∨ (m % 2 = 1 ∧ m < 2 ^ 512)
 
-/-- exact rational whose numerator and denominator are read back unchanged (`okNat`) -/
-def Flt.Small (cfg : Bool) : Flt → Prop
+/-- The float representations for which the round trip is proved:
+    an exact fraction whose numerator and denominator are read back unchanged (`okNat`), or a genuine
+    floatVal: odd mantissa below 2^512 and a binary exponent outside (-4096, 4096) (a floatVal with a
+    small exponent legitimately comes back as the equal fraction) and below 10^9 in magnitude. -/
+def Flt.InDomain (cfg : Bool) : Flt → Prop
   | .rat n d => okNat cfg n.natAbs ∧ okNat cfg d
-  | .big _ _ _ => False
-
-theorem unmarshalFloat_exactString (cfg : Bool) (f : Flt) (hw : f.WF) (hs : f.Small cfg) :
-    unmarshalFloat cfg (exactString f) = .val f := by
-  cases f with
-  | big neg m e => exact absurd hs (by simp [Flt.Small])
-  | rat n d =>
-    obtain ⟨hd, hg⟩ := hw
-    obtain ⟨hn, hd'⟩ := hs
-    unfold exactString
-    by_cases h1 : d = 1
-    · subst h1
-      simp only [if_true]
-      unfold unmarshalFloat
-      simp only [splitFirst_none cSlash _ (intToDec_not_mem n cSlash (by decide) (by decide)),
-        parseFloatLit_ok cfg n hn, ofLit]
-    · simp only [h1, if_false]
-      unfold unmarshalFloat
-      have := parseFloatLit_ok cfg (d : Int) (by simpa using hd')
-      rw [intToDec_ofNat] at this
-      simp only [splitFirst_append cSlash _ _ (intToDec_not_mem n cSlash (by decide) (by decide)),
-        parseFloatLit_ok cfg n hn, this,
-        quo_small n d hd hg (okNat_smallInt cfg _ hn) (okNat_smallInt cfg _ hd')]
+  | .big _ m e => m % 2 = 1 ∧ m < 2 ^ 512 ∧ smallExp (e + (bitlen m : Int)) = false ∧
+      (e + (bitlen m : Int)).natAbs < 10 ^ 9
 
 theorem exactString_rat_not_mem_colon (n : Int) (d : Nat) : ∀ x ∈ exactString (.rat n d), x ≠ cColon := by
   intro x hx
@@ -343,14 +325,6 @@ theorem exactString_rat_not_mem_colon (n : Int) (d : Nat) : ∀ x ∈ exactStrin
     · rcases List.mem_cons.mp h with h | h
       · rw [h]; decide
       · exact natToDec_not_mem d cColon (by decide) x h
-
-theorem addZero_small (cfg : Bool) (f : Flt) (hs : f.Small cfg) : addZero f = f := by
-  cases f with
-  | big neg m e => rfl
-  | rat n d =>
-    unfold addZero makeRat
-    simp [okNat_smallInt cfg _ hs.1, okNat_smallInt cfg _ hs.2]
-
 
 /-! ## hex printer / parser (mantissa of the floatVal text form) -/
 
@@ -542,4 +516,286 @@ theorem parseHexP_bigText (m : Nat) (x : Int) (hm : m < 2 ^ 512) (hx : x.natAbs 
   have h1 : decide ((mantHex m).length > 128) = false := by simp; omega
   have h2 : decide ((natToDec x.natAbs).length > 9) = false := by simp; omega
   simp [h1, h2]
+
+/-! ## floatVal text form: exactness of the 512-bit rounding below 2^512, normalisation -/
+
+theorem pow_bitlen_le (x : Nat) (h : x ≠ 0) : 2 ^ (bitlen x - 1) ≤ x := by
+  unfold bitlen
+  simp only [h, if_false, Nat.add_sub_cancel]
+  exact Nat.log2_self_le h
+
+theorem bitlen_pos (x : Nat) (h : x ≠ 0) : 0 < bitlen x := by
+  unfold bitlen; simp [h]
+
+theorem bitlen_shiftLeft_eq (x k : Nat) (h : x ≠ 0) : bitlen (x <<< k) = bitlen x + k := by
+  apply Nat.le_antisymm (bitlen_shiftLeft x k)
+  apply Nat.le_of_not_lt
+  intro hlt
+  have h1 : bitlen (x <<< k) ≤ bitlen x + k - 1 := by omega
+  rw [bitlen_le_iff, Nat.shiftLeft_eq] at h1
+  have h2 := pow_bitlen_le x h
+  have hp := bitlen_pos x h
+  have h3 : 2 ^ (bitlen x + k - 1) = 2 ^ (bitlen x - 1) * 2 ^ k := by
+    rw [← Nat.pow_add]; congr 1; omega
+  rw [h3] at h1
+  have := Nat.mul_le_mul_right (2 ^ k) h2
+  omega
+
+theorem shiftLeft_ne_zero (x k : Nat) (h : x ≠ 0) : x <<< k ≠ 0 := by
+  rw [Nat.shiftLeft_eq]
+  exact Nat.ne_of_gt (Nat.mul_pos (Nat.pos_of_ne_zero h) (Nat.two_pow_pos k))
+
+/-- an integer of at most 512 bits is its own rounding -/
+theorem roundRat_exact (M : Nat) (hM : M ≠ 0) (hb : bitlen M ≤ 512) :
+    roundRat M 1 = (M <<< (512 - bitlen M), ((bitlen M : Int) - 512)) := by
+  unfold roundRat
+  simp only [bitlen_one, prec]
+  have hp := bitlen_pos M hM
+  have hk : (515 + ((1 : Nat) : Int) - (bitlen M : Int)) ≥ 0 := by omega
+  have hkn : (515 + ((1 : Nat) : Int) - (bitlen M : Int)).toNat = 516 - bitlen M := by omega
+  simp only [hk, if_true, Nat.div_one, Nat.mod_one, hkn, ne_eq, not_true_eq_false, false_or]
+  have hq0 : bitlen (M <<< (516 - bitlen M)) = 516 := by
+    rw [bitlen_shiftLeft_eq M _ hM]; omega
+  rw [hq0]
+  have e4 : 516 - 512 = 4 := rfl
+  rw [e4]
+  have hsplit : M <<< (516 - bitlen M) = (M <<< (512 - bitlen M)) <<< 4 := by
+    rw [← Nat.shiftLeft_add]; congr 1; omega
+  have hq : (M <<< (516 - bitlen M)) >>> 4 = M <<< (512 - bitlen M) := by
+    rw [hsplit, Nat.shiftLeft_shiftRight]
+  have hrem : (M <<< (516 - bitlen M)) % 2 ^ 4 = 0 := by
+    rw [hsplit, Nat.shiftLeft_eq]; exact Nat.mul_mod_left _ _
+  rw [hq, hrem]
+  have hup : ¬ (0 > 2 ^ (4 - 1) ∨ (0 = 2 ^ (4 - 1) ∧ (M <<< (512 - bitlen M)) % 2 = 1)) := by
+    intro h
+    rcases h with h | h
+    · exact absurd h (by decide)
+    · exact absurd h.1 (by decide)
+  simp only [hup, if_false]
+  congr 1
+  omega
+
+theorem stripTwos_shift (f j m : Nat) (e : Int) (hm : m % 2 = 1) (hf : j < f) :
+    stripTwos f (m <<< j) e = (m, e + j) := by
+  induction j generalizing f e with
+  | zero =>
+    cases f with
+    | zero => omega
+    | succ f =>
+      unfold stripTwos
+      have : ¬ ((m <<< 0) % 2 = 0 ∧ m <<< 0 ≠ 0) := by simp; omega
+      rw [if_neg this]
+      simp
+  | succ j ih =>
+    cases f with
+    | zero => omega
+    | succ f =>
+      unfold stripTwos
+      have h1 : m <<< (j + 1) = (m <<< j) * 2 := by
+        rw [Nat.shiftLeft_succ, Nat.mul_comm]
+      have h2 : (m <<< (j + 1)) % 2 = 0 := by rw [h1]; exact Nat.mul_mod_left _ _
+      have hm0 : m ≠ 0 := by intro h; subst h; simp at hm
+      have h3 : m <<< (j + 1) ≠ 0 := shiftLeft_ne_zero m _ hm0
+      have h4 : (m <<< (j + 1)) / 2 = m <<< j := by rw [h1]; exact Nat.mul_div_cancel _ (by decide)
+      simp only [h2, h3, ne_eq, not_false_eq_true, and_self, if_true, h4]
+      rw [ih f (e + 1) (by omega)]
+      congr 1
+      omega
+
+theorem hexDigitsAux_length_ge (f n : Nat) (acc : Bytes) (k : Nat) (hf : n < f) (h : 16 ^ k ≤ n) :
+    k + 1 + acc.length ≤ (hexDigitsAux f n acc).length := by
+  induction f generalizing n acc k with
+  | zero => omega
+  | succ f ih =>
+    unfold hexDigitsAux
+    split
+    · rename_i h16
+      have hk : k = 0 := by
+        rcases Nat.eq_zero_or_pos k with h0 | hpos
+        · exact h0
+        · have : 16 ^ 1 ≤ 16 ^ k := Nat.pow_le_pow_right (by decide) hpos
+          omega
+      subst hk; simp; omega
+    · rename_i h16
+      rcases Nat.eq_zero_or_pos k with h0 | hpos
+      · subst h0
+        have := ih (n / 16) (hexChar (n % 16) :: acc) 0 (by omega) (by simp; omega)
+        simp only [List.length_cons] at this
+        omega
+      · have hdiv : 16 ^ (k - 1) ≤ n / 16 := by
+          rw [Nat.le_div_iff_mul_le (by decide)]
+          have : 16 ^ k = 16 ^ (k - 1) * 16 := by
+            rw [← Nat.pow_succ]; congr 1; omega
+          omega
+        have := ih (n / 16) (hexChar (n % 16) :: acc) (k - 1) (by omega) hdiv
+        simp only [List.length_cons] at this
+        omega
+
+theorem pow16 (c : Nat) : (16 : Nat) ^ c = 2 ^ (4 * c) := by
+  rw [Nat.pow_mul]
+
+/-- the mantissa text has exactly one hex digit per four bits of the left-aligned mantissa -/
+theorem mantHex_length_eq (m : Nat) (hm : m ≠ 0) :
+    4 * (mantHex m).length = bitlen m + (4 - bitlen m % 4) % 4 := by
+  unfold mantHex hexDigits
+  generalize hp : (4 - bitlen m % 4) % 4 = pad
+  have hM0 : m <<< pad ≠ 0 := shiftLeft_ne_zero m pad hm
+  have hB : bitlen (m <<< pad) = bitlen m + pad := bitlen_shiftLeft_eq m pad hm
+  have hpos := bitlen_pos m hm
+  -- B = 4c
+  have hc : ∃ c, bitlen m + pad = 4 * c ∧ 0 < c := ⟨(bitlen m + pad) / 4, by omega, by omega⟩
+  obtain ⟨c, hc4, hcpos⟩ := hc
+  have hup : m <<< pad < 16 ^ c := by
+    rw [pow16, ← hc4, ← hB]; exact lt_pow_bitlen _
+  have hlo : 16 ^ (c - 1) ≤ m <<< pad := by
+    rw [pow16]
+    have := pow_bitlen_le (m <<< pad) hM0
+    rw [hB] at this
+    exact Nat.le_trans (Nat.pow_le_pow_right (by decide) (by omega)) this
+  have h1 := hexDigitsAux_length (m <<< pad + 1) (m <<< pad) [] c hcpos hup
+  have h2 := hexDigitsAux_length_ge (m <<< pad + 1) (m <<< pad) [] (c - 1) (by omega) hlo
+  simp only [List.length_nil] at h1 h2
+  omega
+
+/-- makeFloatFromLiteral on the exact value `±M * 2^sh` that is a genuine floatVal -/
+theorem floatOfShift_big (neg : Bool) (m j : Nat) (sh : Int) (hm : m % 2 = 1)
+    (hb : bitlen (m <<< j) ≤ 512)
+    (hx : smallExp ((bitlen (m <<< j) : Int) + sh) = false) :
+    floatOfShift neg (m <<< j) sh = .big neg m (sh + j) := by
+  have hm0 : m ≠ 0 := by intro h; subst h; simp at hm
+  have hM0 : m <<< j ≠ 0 := shiftLeft_ne_zero m j hm0
+  unfold floatOfShift
+  simp only [hM0, if_false, roundRat_exact _ hM0 hb]
+  have hq : bitlen ((m <<< j) <<< (512 - bitlen (m <<< j))) = 512 := by
+    rw [bitlen_shiftLeft_eq _ _ hM0]; omega
+  have hexp : expOf ((m <<< j) <<< (512 - bitlen (m <<< j))) ((bitlen (m <<< j) : Int) - 512 + sh)
+      = (bitlen (m <<< j) : Int) + sh := by
+    unfold expOf; rw [hq]; omega
+  rw [hexp, hx]
+  simp only [Bool.false_eq_true, if_false]
+  unfold mkBig
+  have hne : (m <<< j) <<< (512 - bitlen (m <<< j)) ≠ 0 := shiftLeft_ne_zero _ _ hM0
+  simp only [hne, if_false, hq]
+  rw [← Nat.shiftLeft_add]
+  have hj : bitlen (m <<< j) = bitlen m + j := bitlen_shiftLeft_eq m j hm0
+  have hpos := bitlen_pos m hm0
+  rw [stripTwos_shift 512 (j + (512 - bitlen (m <<< j))) m _ hm (by omega)]
+  congr 1
+  omega
+
+/-! ## the floatVal text form is read back exactly -/
+
+theorem pad_bound (L : Nat) (h : L ≤ 512) : L + (4 - L % 4) % 4 ≤ 512 := by omega
+
+theorem parseFloatLit_bigText (cfg neg : Bool) (m : Nat) (e : Int) (hm : m % 2 = 1) (hlt : m < 2 ^ 512)
+    (hs : smallExp (e + (bitlen m : Int)) = false) (hx : (e + (bitlen m : Int)).natAbs < 10 ^ 9) :
+    parseFloatLit cfg (exactString (.big neg m e)) = .val (.big neg m e) := by
+  have hm0 : m ≠ 0 := by intro h; subst h; simp at hm
+  have hL : bitlen m ≤ 512 := (bitlen_le_iff m 512).mpr hlt
+  simp only [exactString, hm0, if_false]
+  generalize hbody : sHexDot ++ mantHex m ++ cP :: expToDec (e + (bitlen m : Int)) = body
+  have e1 : body = 48 :: 120 :: 46 :: (mantHex m ++ cP :: expToDec (e + (bitlen m : Int))) := by
+    rw [← hbody]; simp [sHexDot]
+  have hsplit : splitSign ((if neg = true then [cMinus] else []) ++ body) = (neg, body) := by
+    cases neg
+    · simp [e1, splitSign]
+    · simp [splitSign, cMinus]
+  have hnd : (!body.isEmpty && body.all isDigit) = false := by
+    rw [e1]; simp [isDigit]
+  have hp := parseHexP_bigText m (e + (bitlen m : Int)) hlt hx
+  rw [hbody] at hp
+  unfold parseFloatLit
+  rw [show (if neg = true then [cMinus] else []) ++ sHexDot ++ mantHex m ++ cP :: expToDec (e + (bitlen m : Int))
+      = (if neg = true then [cMinus] else []) ++ body by rw [← hbody]; simp [List.append_assoc]]
+  rw [hsplit]
+  simp only [hnd, Bool.false_eq_true, if_false, hp]
+  have hlen := mantHex_length_eq m hm0
+  have hb : bitlen (m <<< ((4 - bitlen m % 4) % 4)) ≤ 512 := by
+    rw [bitlen_shiftLeft_eq m _ hm0]; exact pad_bound _ hL
+  have hsh : ((bitlen (m <<< ((4 - bitlen m % 4) % 4)) : Nat) : Int) +
+      (e + (bitlen m : Int) - 4 * ((mantHex m).length : Int)) = e + (bitlen m : Int) := by
+    rw [bitlen_shiftLeft_eq m _ hm0]; omega
+  rw [floatOfShift_big neg m _ _ hm hb (by rw [hsh]; exact hs)]
+  congr 2
+  omega
+
+theorem mantHex_not_mem (m c : Nat) (hc : hexVal c = none) : ∀ x ∈ mantHex m, x ≠ c := by
+  intro x hx e
+  have := hexDigits_all (m <<< ((4 - bitlen m % 4) % 4))
+  rw [List.all_eq_true] at this
+  have := this x hx
+  rw [e, hc] at this
+  exact Bool.noConfusion this
+
+/-- neither '/' nor ':' occurs in the text of a floatVal -/
+theorem exactString_big_not_mem (neg : Bool) (m : Nat) (e : Int) (c : Nat)
+    (hd : isDigit c = false) (hh : hexVal c = none)
+    (h1 : c ≠ 45) (h2 : c ≠ 43) (h3 : c ≠ 120) (h4 : c ≠ 46) (h5 : c ≠ 112) :
+    ∀ x ∈ exactString (.big neg m e), x ≠ c := by
+  intro x hx
+  simp only [exactString] at hx
+  split at hx
+  · simp [cZero] at hx; subst hx; intro e48; subst e48; revert hd; decide
+  · simp only [List.mem_append, List.mem_cons] at hx
+    rcases hx with ((hx | hx) | hx) | hx | hx
+    · split at hx
+      · simp [cMinus] at hx; omega
+      · simp at hx
+    · simp [sHexDot] at hx
+      rcases hx with hx | hx | hx
+      · subst hx; intro e48; subst e48; revert hd; decide
+      · omega
+      · omega
+    · exact mantHex_not_mem m c hh x hx
+    · simp [cP] at hx; omega
+    · unfold expToDec at hx
+      split at hx
+      · rcases List.mem_cons.mp hx with h | h
+        · simp [cPlus] at h; omega
+        · exact natToDec_not_mem _ c hd x h
+      · rcases List.mem_cons.mp hx with h | h
+        · simp [cMinus] at h; omega
+        · exact natToDec_not_mem _ c hd x h
+
+theorem exactString_not_mem_colon (f : Flt) : ∀ x ∈ exactString f, x ≠ cColon := by
+  cases f with
+  | rat n d => exact exactString_rat_not_mem_colon n d
+  | big neg m e =>
+    exact exactString_big_not_mem neg m e cColon (by decide) (by decide) (by decide) (by decide)
+      (by decide) (by decide) (by decide)
+
+theorem unmarshalFloat_exactString (cfg : Bool) (f : Flt) (hw : f.WF) (hs : f.InDomain cfg) :
+    unmarshalFloat cfg (exactString f) = .val f := by
+  cases f with
+  | big neg m e =>
+    obtain ⟨hm, hlt, hsm, hx⟩ := hs
+    unfold unmarshalFloat
+    rw [splitFirst_none cSlash _ (exactString_big_not_mem neg m e cSlash (by decide) (by decide)
+      (by decide) (by decide) (by decide) (by decide) (by decide))]
+    simp only [parseFloatLit_bigText cfg neg m e hm hlt hsm hx, ofLit]
+  | rat n d =>
+    obtain ⟨hd, hg⟩ := hw
+    obtain ⟨hn, hd'⟩ := hs
+    unfold exactString
+    by_cases h1 : d = 1
+    · subst h1
+      simp only [if_true]
+      unfold unmarshalFloat
+      simp only [splitFirst_none cSlash _ (intToDec_not_mem n cSlash (by decide) (by decide)),
+        parseFloatLit_ok cfg n hn, ofLit]
+    · simp only [h1, if_false]
+      unfold unmarshalFloat
+      have := parseFloatLit_ok cfg (d : Int) (by simpa using hd')
+      rw [intToDec_ofNat] at this
+      simp only [splitFirst_append cSlash _ _ (intToDec_not_mem n cSlash (by decide) (by decide)),
+        parseFloatLit_ok cfg n hn, this,
+        quo_small n d hd hg (okNat_smallInt cfg _ hn) (okNat_smallInt cfg _ hd')]
+
+theorem addZero_inDomain (cfg : Bool) (f : Flt) (hs : f.InDomain cfg) : addZero f = f := by
+  cases f with
+  | big neg m e => rfl
+  | rat n d =>
+    unfold addZero makeRat
+    simp [okNat_smallInt cfg _ hs.1, okNat_smallInt cfg _ hs.2]
+
 end Marshal
